@@ -9,6 +9,8 @@ split) and by unyt.
 
 import itertools
 
+import numpy as np
+
 from mc import harness, world
 from mc.ref import rparse
 from mc.ref.dims import dim_of
@@ -230,6 +232,35 @@ def _is_symbol_prefix_plus_symbol(s):
     return False
 
 
+def part_alias_reference(ctx):
+    """the library's alias table against the independent reference (mc/ref/aliases.py), in both directions, and every
+    reference alias resolved against the definition of the symbol the REFERENCE gives for it"""
+    from mc.ref.aliases import ALIAS_OF
+
+    lib = {}
+    for key, alts in default_unit_name_alternatives.items():
+        for a in alts:
+            lib.setdefault(a, []).append(key)
+    for a, sym in sorted(ALIAS_OF.items()):
+        ctx.count("evaluations")
+        ctx.decided(("alias-ref", a))
+        case = {"part": "alias-reference", "alias": a, "symbol": sym}
+        if lib.get(a) != [sym]:
+            ctx.violation("C14|alias-reference|mode=alias-listed-under-another-symbol-or-missing", case, sym, lib.get(a))
+        if sym not in default_unit_symbol_lut:
+            ctx.violation("C14|alias-reference|mode=reference-symbol-missing-from-table", case, sym, None)
+            continue
+        g = real(a)
+        if g[0] != "ok":
+            if not (a in ("°C", "°F") and False):
+                ctx.violation(f"C14|alias-reference|sym={sym}|mode=listed-name-not-usable-as-string", case, "resolves", g)
+        elif not same_unit(g, unit_of_reading(1, sym)):
+            ctx.violation(f"C14|alias-reference|sym={sym}|mode=alias-denotes-another-unit", case, unit_of_reading(1, sym), g)
+    for a, keys in sorted(lib.items()):
+        if a not in ALIAS_OF:
+            ctx.violation("C14|alias-reference|mode=alias-not-in-reference", {"part": "alias-reference", "alias": a}, None, keys)
+
+
 def part_alias_table(ctx, shard):
     """the raw alias table: every row hangs on a table symbol, every listed alias is usable and denotes that symbol's unit"""
     for key in shard:
@@ -373,6 +404,26 @@ def part_unicode(ctx, shard):
             ctx.violation(f"C14|unicode|ascii={b}|mode=unicode-spelling-differs", {"part": "unicode", "pair": [a, b]}, rb, ra)
 
 
+def part_bytes(ctx, shard):
+    """a documented name handed over as UTF-8 bytes (np.bytes_ headers, HDF5 attributes) denotes what the str denotes"""
+    for name in shard:
+        ctx.count("evaluations")
+        rs = real(name)
+        if rs[0] != "ok":
+            continue  # unusable as a string: reported elsewhere
+        for form, mk in (("bytes", lambda: name.encode("utf-8")), ("np.bytes_", lambda: np.bytes_(name.encode("utf-8")))):
+            try:
+                u = Unit(mk())
+                rb = ("ok", float(u.base_value), dim_of(u.dimensions), float(u.base_offset), str(u.expr))
+            except UnitParseError:
+                rb = ("unknown",)
+            except Exception as e:  # noqa: BLE001
+                rb = ("raise", type(e).__name__)
+            ctx.decided(("bytes", name, form))
+            if rb[0] != "ok" or rb[1:4] != rs[1:4]:
+                ctx.violation(f"C14|bytes|form={form}|ascii={int(name.isascii())}|mode=bytes-spelling-differs-from-str", {"part": "bytes", "name": name}, rs, rb)
+
+
 def chunks(seq, n):
     return [seq[i : i + n] for i in range(0, len(seq), n)]
 
@@ -514,6 +565,9 @@ def run(ctx):
     part_unicode(ctx, UNICODE_PAIRS)
     akeys = sorted(default_unit_name_alternatives)
     harness.pmap(ctx, part_alias_table, chunks(akeys, 20))
+    part_alias_reference(ctx)
+    bnames = sorted(n for n in exposed_names() if not n.isascii()) + sorted(n for n in exposed_names() if n.isascii())[::7]
+    harness.pmap(ctx, part_bytes, chunks(bnames, 100))
     harness.pmap(ctx, part_double, [[S] for S in DOUBLE_BASES])
     # every exposed name must be inside the universe (otherwise the reader has no opinion on it)
     missing = sorted(set(exposed_names()) - set(uni))
@@ -552,6 +606,10 @@ def replay(case):
         part_attrs(ctx, [case["name"]])
     elif case["part"] == "unicode":
         part_unicode(ctx, [tuple(case["pair"])])
+    elif case["part"] == "bytes":
+        part_bytes(ctx, [case["name"]])
+    elif case["part"] == "alias-reference":
+        part_alias_reference(ctx)
     elif case["part"] == "alias-table":
         part_alias_table(ctx, [case["key"]])
     elif case["part"] == "double":
